@@ -69,7 +69,7 @@ func vlogSize(dir string) (string, int64) {
 // storeHook is called around every Badger commit of every persistent node.
 func (c *Cluster) storeHook(path, kind, phase string) error {
 	n := c.byPath[path]
-	if n == nil || c.inShadow || n.crashed {
+	if n == nil || c.inShadow || n.crashed || n.constructing {
 		return nil
 	}
 	if phase == "pre" {
